@@ -597,4 +597,5 @@ def run(tier):
     rep.floor("content-less cases", check_empty(rep, F, f, rec, R, G), 6)
     from . import blockindent
     rep.floor("explicit indentation cases", blockindent.check(rep, F), 80)
+    rep.floor("end-of-input tests that append the implied final break", blockindent.implied_final_break(rep, F), 1)
     return rep
